@@ -87,6 +87,8 @@ def h_limiter_adjust(which):
         L = D.Limiter(u, lo, up)
         L.owner = NS(idx=NS(v=list(range(n))), class_name='Host')
         L.list2array(n)
+        if I.symbolic:
+            L._show_adjust = lambda *a, **k: None       # table formatting of the adjusted limits (logging only)
         allow, adj = which
         L.check_var(allow_adjust=allow, adjust_lower=adj, adjust_upper=adj, is_init=True)
         out = []
@@ -544,7 +546,7 @@ def main():
     thorough = core.tier() == 'thorough'
     ck.bound(vector_length='<= 3', history_calls='<= 5 (thorough) / 4 (quick)', niter='{0,4,5} around niter_lock=4',
              values='all reals')
-    ck.stub('numpy.isnan on symbolic reals returns False (Switcher)')
+    ck.stub('numpy.isnan on symbolic reals returns False (Switcher)', 'Limiter._show_adjust (logging table) -> no-op in exploration')
     ck.assume('floats abstracted as reals', 'history components: first call is at t=0, later stamps are >= 0, and t=0 recurs only before the first positive stamp',
               'Average: stamps > 0 after the first call and non-degenerate window (span != 0)')
     ck.out('whole-simulation clamping (trapezoid overshoot): see DESIGN.md C09', 'ShuntAdjust', 'Delay in time mode beyond 4 calls',
